@@ -59,7 +59,10 @@ TUnwrapAs == IsEv("UnwrapAs") /\ MUnwrapAs(E.m, E.w, E.b) /\ E.rv # "OK" /\ E.ma
 TDerive   == IsEv("Derive") /\ MDerive(E.m, E.base, E.d, E.kind) /\ RvOK /\ Keep
              /\ IF out'.rv = "OK" THEN E.k = out'.k /\ E.made = 1 /\ Bind(out'.v, E.v) /\ E.v = E.ref /\ KcvOK /\ E.attrsok
                                   ELSE E.made = 0 /\ UNCHANGED sem
-TValue    == IsEv("Value") /\ MValue(E.k) /\ RvOK /\ Bind(out'.v, E.v) /\ Keep
+\* attrsok: the attributes that say how the key was made (CKA_LOCAL, CKA_KEY_GEN_MECHANISM, CKA_ALWAYS_SENSITIVE,
+\* CKA_NEVER_EXTRACTABLE, CKA_VALUE_LEN, key type and class) still tell the truth
+TValue    == IsEv("Value") /\ MValue(E.k) /\ RvOK /\ Bind(out'.v, E.v) /\ Keep /\ ("attrsok" \in DOMAIN E => E.attrsok)
+TValueR   == IsEv("ValueR") /\ MValueR(E.k) /\ RvOK /\ Bind(out'.v, E.v) /\ Keep /\ E.attrsok
 \* rt: the library's inverse operation (same chunking) gives the input back / verifies; tamper: every altered variant
 \* (data, signature / MAC / tag, IV, AAD) is rejected
 TCrypt    == IsEv("Crypt") /\ MCrypt(E.mode, E.k, E.d, E.ch) /\ Keep
@@ -74,7 +77,7 @@ TDigest   == IsEv("Digest") /\ MDigest(E.mode, E.d, E.ch) /\ E.rv = "OK" /\ Bind
 TRCrypt   == IsEv("RCrypt") /\ MRCrypt(E.mode, E.k, E.d) /\ E.rv = "OK" /\ E.refok /\ E.libok /\ E.tamper /\ UNCHANGED sem /\ Keep
 
 TInit == Init /\ l = 1 /\ bn = 0 /\ cfg = "" /\ sem = {} /\ TLCSet(1, 1)
-TNext == TReset \/ TProbe \/ TImport \/ TImportT \/ TGenerate \/ TWrap \/ TDamage \/ TUnwrap \/ TUnwrapT \/ TUnwrapAs \/ TDerive \/ TValue \/ TCrypt \/ TDigest \/ TRCrypt
+TNext == TReset \/ TProbe \/ TImport \/ TImportT \/ TGenerate \/ TWrap \/ TDamage \/ TUnwrap \/ TUnwrapT \/ TUnwrapAs \/ TDerive \/ TValue \/ TValueR \/ TCrypt \/ TDigest \/ TRCrypt
 TSpec == TInit /\ [][TNext]_tvars
 TrackMax == IF l > TLCGet(1) THEN TLCSet(1, l) ELSE TRUE
 TraceAccepted == PrintT(<<"MAXL", TLCGet(1)>>)
